@@ -78,3 +78,30 @@ func mkScalar(v *big.Int) *secp256k1.Scalar {
 }
 
 var _ = rapid.Bool
+
+// mkScalarHist returns a scalar holding v; with hist > 0 the object held another value before, was used in a
+// multiplication, and received v through one of several mutators.
+func mkScalarHist(v *big.Int, hist int) *secp256k1.Scalar {
+	fresh := mkScalar(v)
+	if hist <= 0 {
+		return fresh
+	}
+	used := secp256k1.NewScalar().SetUInt64(0xdeadbeef)
+	_ = used.Bits()
+	secp256k1.Base().Multiply(used)
+	switch (hist - 1) % 6 {
+	case 0:
+		used.Set(fresh)
+	case 1:
+		_ = used.Decode(fresh.Encode())
+	case 2:
+		_ = used.CSelect(1, used, fresh)
+	case 3:
+		_ = used.CSelect(0, fresh, used)
+	case 4:
+		used.Zero().Add(fresh)
+	default:
+		used.One().Multiply(fresh)
+	}
+	return used
+}
